@@ -328,6 +328,9 @@ func reachAvoiding(s *SCCP, from, to ssa.Instruction, avoid []ssa.Instruction) b
 	if fn == nil || tn == nil {
 		return false
 	}
+	if posInNode(fn, from) < 0 || posInNode(tn, to) < 0 {
+		return false
+	}
 	if block[fn] {
 		// the avoided call sits in the same node as the start: if it comes after the start, the path is blocked
 		for _, in := range fn.Instrs[posInNode(fn, from)+1:] {
